@@ -44,7 +44,13 @@ class C10(Check):
     max_discard = 0.7
 
     def strata(self, tier):
-        return [('S-func', 4), ('S-run-euler', 4), ('S-run-scipy', 2), ('S-edges', 2), ('S-edges-vec', 1)]
+        return [('S-func', 4), ('S-run-euler', 4), ('S-run-scipy', 2), ('S-edges', 2), ('S-edges-vec', 1), ('S-torch', 1)]
+
+    def prepare_parent(self):
+        try:
+            import torch  # noqa: once, in the parent
+        except Exception:
+            pass
 
     def generate(self, rng, stratum, tier):
         dt = rng.choice([1e-3, 0.01, 0.02])
@@ -60,7 +66,9 @@ class C10(Check):
                               build='python' if rng.random() < 0.7 else 'yaml')
         set_taus(rng, spec, dt, steps)
         cfg = {'dt': dt, 'steps': steps, 'level': 'func' if stratum in ('S-func', 'S-edges', 'S-edges-vec') else 'run',
-               'solver': {'S-run-euler': rng.choice(['euler', 'euler', 'heun']), 'S-run-scipy': 'scipy'}.get(stratum, 'scipy'),
+               'backend': 'torch' if stratum == 'S-torch' else 'default',
+               'solver': {'S-run-euler': rng.choice(['euler', 'euler', 'heun']), 'S-run-scipy': 'scipy',
+                          'S-torch': rng.choice(['euler', 'scipy'])}.get(stratum, 'scipy'),
                'vectorize': (stratum == 'S-edges-vec') or (stratum not in ('S-edges',) and rng.random() < 0.4),
                'adaptive_func': True if edges_mode else rng.random() < 0.5,
                'probes': [[rng.uniform(0.0, 2.0), rng.randint(0, 50)] for _ in range(6)],
@@ -224,7 +232,7 @@ class C10(Check):
         outputs = {f'o{i}': n for i, n in enumerate(names)}
         try:
             R = c.run(T, dt, outputs=outputs, solver=cfg['solver'], vectorize=cfg['vectorize'], float_precision='float64',
-                      decorator=rec, verbose=False)
+                      decorator=rec, verbose=False, backend=cfg.get('backend', 'default'))
         except Exception as e:
             if not rec.events:
                 res['discard'] = f'model refused: {type(e).__name__}: {str(e)[:80]}'
